@@ -140,7 +140,7 @@ func rejudgeSaved(t *testing.T, check string) {
 func TestLinearizable(t *testing.T) {
 	stats.Rule(checkSmall, "rapid draws a concurrent program: stack from the 5 wrapper stacks, 2-4 views (realms over {a,b}, len 0-2, duplicates and prefix-related realms frequent, "+
 		"built by WithRealm or WithExtendedRealm), 2-6 keys over {a,b} len 0-2 so that realm||key collides between views, 2-16 goroutines x 3-12 operations (Get/Has/Set/Delete/"+
-		"DeletePrefix/Clear/Iterate/IterateKeys with direction and stop/batches of 1-4 writes + Commit, optional Gosched), at most ~64 history operations; goroutines are released by a "+
+		"DeletePrefix/Clear/Iterate/IterateKeys with direction and stop, a third of them with a consumer that calls back into the view it iterates (Delete of an absent key + Has)/batches of 1-4 writes + Commit, optional Gosched), at most ~64 history operations; goroutines are released by a "+
 		"spin barrier, every call is bracketed by a shared logical clock, every written value is unique; a final sequential read-back is appended. The history (a committed batch = "+
 		"one write per key with the Commit interval) is judged by porcupine against the single-ordered-map model; whole package under -race; 20 s watchdog. "+
 		"non-trivial = operations of two goroutines with intersecting intervals on one full key (at least one a write) or a prefix operation overlapping a write of a matching key "+
